@@ -659,3 +659,19 @@ Proof.
     split; [|right; exact HcG].
     rewrite !head_predicate_atom, (cs_shape_no_head F Hc), (cs_shape_no_head G HcG). reflexivity.
 Qed.
+
+(* ------------------------------------------------------------------ control_translate *)
+(* same names, roles, directions; the formulas are the simplified ones *)
+Definition annot_map (s : formula -> formula) (a : aformula_annot) : aformula_annot :=
+  mkannot (an_role a) (an_dir a) (an_name a) (s (an_formula a)).
+
+Lemma control_translate_from_map (s : formula -> formula) public th :
+  (forall f, In f th -> head_predicate (s f) = head_predicate f) ->
+  forall k, control_translate_from public k (map s th) = map (annot_map s) (control_translate_from public k th).
+Proof.
+  induction th as [|f th IH]; intros H k; cbn [map control_translate_from]; [reflexivity|].
+  rewrite (H f (or_introl eq_refl)).
+  assert (H' : forall g, In g th -> head_predicate (s g) = head_predicate g) by (intros g Hg; apply H; right; exact Hg).
+  destruct (head_predicate f) as [p|]; cbn [map]; rewrite (IH H'); reflexivity.
+Qed.
+
